@@ -28,7 +28,7 @@
 From Coq Require Import List NArith ZArith Bool.
 From H2V Require Import Base.Bytes Base.MachineInt Base.Result Gen.GenConsts Impl.Hpack Impl.ServerConn Impl.ServerInst
   Impl.ClientConn Impl.ClientInst Proofs.CliDefs Spec.FlowLedger Proofs.SrvFlowLedger
-  Proofs.CliFlowMoves Proofs.CliFlowOut Proofs.CliFlowSettings Proofs.CliFlowSafe Proofs.CliFlowEs Proofs.CliFlowExamples.
+  Proofs.CliFlowMoves Proofs.CliFlowOut Proofs.CliFlowSettings Proofs.CliFlowSafe Proofs.CliFlowEs Proofs.CliFlowStall Proofs.CliFlowExamples.
 Import ListNotations.
 Local Open Scope N_scope.
 
@@ -100,6 +100,86 @@ Theorem C07_data_after_headers : forall (hstate : Type) (dec_field : hstate -> N
   exists blk, In (COHeaders sid false blk) pre.
 Proof. exact data_after_headers. Qed.
 Print Assumptions C07_data_after_headers.
+
+(* (c) no stall: after any events, while the write loop runs and no winCh token is waiting for it, every body still
+   pending has bytes buffered and is blocked by a window that is not positive. So whenever a pending body could go
+   on, the token is set and the write loop will run flushPending (or the write loop has ended, with the connection) *)
+Theorem C07_no_stall : forall (hstate : Type) (dec_field : hstate -> N -> bytes -> dec_res hstate)
+    (enc_field : hstate -> bytes -> bytes -> bool -> bytes * hstate) (enc_set_max : hstate -> N -> hstate)
+    (cfg : cl_config) (h0 : hstate) (first : bytes) (evs : list cevent) (pb : cpending),
+  let c := cl_run dec_field enc_field enc_set_max cfg h0 first evs in
+  cl_wl_live c = true -> cc_winCh c = false -> In pb (cc_pending c) ->
+  pb_body pb <> [] /\ (cl_zmin (pb_window pb) (cc_connWindow c) <= 0)%Z.
+Proof. exact no_stall. Qed.
+Print Assumptions C07_no_stall.
+
+(* (c) every step in which the read loop applies a grant (WINDOW_UPDATE, SETTINGS with INITIAL_WINDOW_SIZE) ends with
+   the winCh token set (signalWindow) *)
+Theorem C07_window_opening_signals : forall (hstate : Type) (dec_field : hstate -> N -> bytes -> dec_res hstate)
+    (enc_field : hstate -> bytes -> bytes -> bool -> bytes * hstate) (enc_set_max : hstate -> N -> hstate)
+    (cfg : cl_config) (c : cconn hstate) (e : cevent),
+  g_ledger_in hstate c e <> [] -> cc_winCh (cl_step dec_field enc_field enc_set_max cfg c e) = true.
+Proof. exact window_opening_signals. Qed.
+Print Assumptions C07_window_opening_signals.
+
+(* (c) sendPending, run to its end by the write loop (the fuel the model gives it is enough), leaves the body it was
+   called for gone or blocked, touches no other body, never raises the connection window, leaves winCh alone *)
+Theorem C07_send_pending_runs_dry : forall (hstate : Type) (dec_field : hstate -> N -> bytes -> dec_res hstate)
+    (enc_field : hstate -> bytes -> bytes -> bool -> bytes * hstate) (enc_set_max : hstate -> N -> hstate)
+    (cfg : cl_config) (h0 : hstate) (first : bytes) (evs : list cevent) (id : N),
+  let c := cl_run dec_field enc_field enc_set_max cfg h0 first evs in
+  let res := cl_send_pending (cl_send_fuel c id) c id in
+  snd res = CSPOk ->
+  (cl_pend_get (cc_pending (fst res)) id = None \/
+   exists pb', cl_pend_get (cc_pending (fst res)) id = Some pb' /\ pb_body pb' <> [] /\
+               (cl_zmin (pb_window pb') (cc_connWindow (fst res)) <= 0)%Z) /\
+  (forall x, x <> id -> cl_pend_get (cc_pending (fst res)) x = cl_pend_get (cc_pending c) x) /\
+  (cc_connWindow (fst res) <= cc_connWindow c)%Z /\ cc_winCh (fst res) = cc_winCh c.
+Proof. exact send_pending_runs_dry. Qed.
+Print Assumptions C07_send_pending_runs_dry.
+
+(* (a), (d) one call of sendPending for a buffered body whose request is still the caller's to send: the critical
+   section subtracts exactly q = min(bytes left, stream window, connection window) (0 if that is not positive) from
+   both windows and the DATA run written right after it carries exactly the next q bytes of the body; if that was all
+   of it END_STREAM is on the last frame and the body leaves c.pending, otherwise the rest stays, blocked *)
+Theorem C07_send_pending_buffered : forall (hstate : Type) (c : cconn hstate) (id : N) (pb : cpending) (fuel : nat),
+  RNG hstate c -> cl_pend_get (cc_pending c) id = Some pb -> pb_stream pb = None -> pb_body pb <> [] ->
+  cl_acquire_for [] (cs_conn c pb id) (pb_tag pb) id = CLOk -> cl_can_write c = true ->
+  let q := cs_n c pb in
+  let done := (q =? Z.of_N (len (pb_body pb)))%Z in
+  let res := cl_send_pending (S (S fuel)) c id in
+  snd res = CSPOk /\
+  cc_out (fst res) = rev (cl_write_data (cc_maxFrame c) id (takeN (Z.to_N q) (pb_body pb)) done) ++ cc_out c /\
+  cc_connWindow (fst res) = (cc_connWindow c - q)%Z /\
+  (if done then cl_pend_get (cc_pending (fst res)) id = None
+   else exists pb', cl_pend_get (cc_pending (fst res)) id = Some pb' /\ pb_body pb' = dropN (Z.to_N q) (pb_body pb) /\
+                    pb_window pb' = (pb_window pb - q)%Z /\ pb_stream pb' = None /\ blocked hstate (fst res) pb').
+Proof. exact send_pending_buffered. Qed.
+Print Assumptions C07_send_pending_buffered.
+
+(* (d) completion, one grant at a time: WINDOW_UPDATE for a stream whose buffered body is waiting raises its window
+   and sets the winCh token; the sendPending the write loop then runs sends the next
+   q = min(bytes left, window + increment, connection window) bytes. By induction on the server's grants one buffered
+   body is sent completely, with one END_STREAM, as soon as the grants cover it. (Several bodies sharing the connection
+   window, and streamed bodies, follow from C07_no_stall and C07_send_pending_runs_dry; not spelled out as one theorem.) *)
+Theorem C07_stream_grant_resumes : forall (hstate : Type) (c : cconn hstate) (id : N) (pb : cpending) (inc : Z) (fuel : nat),
+  RNG hstate c -> cl_pend_get (cc_pending c) id = Some pb -> pb_stream pb = None -> pb_body pb <> [] -> id <> 0 ->
+  (0 <= inc)%Z -> (pb_window pb + inc <= 2147483647)%Z ->
+  let c1 := cl_add_window c id inc in
+  let pb1 := pbu_window pb (pb_window pb + inc)%Z in
+  cl_acquire_for [] (cs_conn c1 pb1 id) (pb_tag pb) id = CLOk -> cl_can_write c = true ->
+  cc_winCh c1 = true /\ cl_pend_get (cc_pending c1) id = Some pb1 /\
+  let q := cs_n c1 pb1 in
+  let done := (q =? Z.of_N (len (pb_body pb)))%Z in
+  let res := cl_send_pending (S (S fuel)) c1 id in
+  snd res = CSPOk /\
+  cc_out (fst res) = rev (cl_write_data (cc_maxFrame c) id (takeN (Z.to_N q) (pb_body pb)) done) ++ cc_out c /\
+  cc_connWindow (fst res) = (cc_connWindow c - q)%Z /\
+  (if done then cl_pend_get (cc_pending (fst res)) id = None
+   else exists pb', cl_pend_get (cc_pending (fst res)) id = Some pb' /\ pb_body pb' = dropN (Z.to_N q) (pb_body pb) /\
+                    pb_window pb' = (pb_window pb + inc - q)%Z /\ pb_stream pb' = None /\ blocked hstate (fst res) pb').
+Proof. exact stream_grant_resumes. Qed.
+Print Assumptions C07_stream_grant_resumes.
 
 (* ---------- examples (the instance with the real HPACK model) ---------- *)
 
@@ -173,3 +253,40 @@ Example C07_negative_window_example :
   map brief (cli_tr ex_cfg ex_first_w10 evs) = [COHeaders 1 false []; COData 1 false [10]; COSettingsAck] /\
   GOK ledger0 (cli_ledger ex_cfg ex_first_w10 evs).
 Proof. cbv zeta. split; [vm_compute; reflexivity|]. split; [vm_compute; reflexivity|]. apply gokb_sound. vm_compute. reflexivity. Qed.
+
+(* the upload after its first 10 bytes: the write loop runs, no token, the body is blocked by its stream window *)
+Example C07_no_stall_example :
+  let c := cli_run ex_cfg ex_first_w10 (firstn 2 ex_upload) in
+  cl_wl_live c = true /\ cc_winCh c = false /\
+  map (fun pb => (len (pb_body pb), pb_window pb)) (cc_pending c) = [(15, 0%Z)] /\ cc_connWindow c = 65525%Z.
+Proof. vm_compute. repeat split. Qed.
+
+Example C07_window_opening_signals_example :
+  let c := cli_run ex_cfg ex_first_w10 (firstn 4 ex_upload) in
+  g_ledger_in hpack_state c (CEvRL (ex_winupd 1 7)) = [LGrant 1 7] /\
+  cc_winCh c = false /\ cc_winCh (cli_step ex_cfg c (CEvRL (ex_winupd 1 7))) = true.
+Proof. vm_compute. repeat split. Qed.
+
+Example C07_send_pending_runs_dry_example :
+  let c := cli_run ex_cfg ex_first_w10 (firstn 5 ex_upload) in
+  let res := cl_send_pending (cl_send_fuel c 1) c 1 in
+  snd res = CSPOk /\ map (fun pb => (len (pb_body pb), pb_window pb)) (cc_pending (fst res)) = [(8, 0%Z)].
+Proof. vm_compute. repeat split. Qed.
+
+(* 15 bytes left, stream window 0 + 7 granted: 7 bytes go out, 8 stay *)
+Example C07_send_pending_buffered_example :
+  let c := cli_run ex_cfg ex_first_w10 (firstn 5 ex_upload) in
+  exists pb, cl_pend_get (cc_pending c) 1 = Some pb /\ pb_stream pb = None /\ len (pb_body pb) = 15 /\ pb_window pb = 7%Z /\
+             cl_acquire_for [] (cs_conn c pb 1) (pb_tag pb) 1 = CLOk /\ cl_can_write c = true /\ cs_n c pb = 7%Z /\
+             map brief (cc_out (fst (cl_send_pending 2 c 1))) = COData 1 false [7] :: map brief (cc_out c).
+Proof. cbv zeta. eexists. split; [vm_compute; reflexivity|]. vm_compute. repeat split. Qed.
+
+(* the last grant: WINDOW_UPDATE(1, 100) on the state with 8 bytes left lets them out with END_STREAM *)
+Example C07_stream_grant_resumes_example :
+  let c := cli_run ex_cfg ex_first_w10 (firstn 6 ex_upload) in
+  exists pb, cl_pend_get (cc_pending c) 1 = Some pb /\ pb_stream pb = None /\ len (pb_body pb) = 8 /\ pb_window pb = 0%Z /\
+             let c1 := cl_add_window c 1 100 in
+             cc_winCh c1 = true /\
+             map brief (cc_out (fst (cl_send_pending 2 c1 1))) = COData 1 true [8] :: map brief (cc_out c) /\
+             cc_pending (fst (cl_send_pending 2 c1 1)) = [].
+Proof. cbv zeta. eexists. split; [vm_compute; reflexivity|]. vm_compute. repeat split. Qed.
